@@ -35,11 +35,17 @@ func (pc ParseContext) unpackMacro(
 	if err != nil {
 		return Macro{ruleName: ""}, err
 	}
-	macroTuple := macroValue.(rel.Tuple)
+	macroTuple, is := macroValue.(rel.Tuple)
+	if !is {
+		return Macro{}, fmt.Errorf("macro must be a tuple, not %s", rel.ValueTypeAsString(macroValue))
+	}
 
 	grammar := macroTuple
 	if macroTuple.HasName("@grammar") {
-		grammar = macroTuple.MustGet("@grammar").(rel.Tuple)
+		grammar, is = macroTuple.MustGet("@grammar").(rel.Tuple)
+		if !is {
+			return Macro{}, fmt.Errorf("@grammar of a macro must be a tuple")
+		}
 	}
 
 	var ruleName string
@@ -55,8 +61,14 @@ func (pc ParseContext) unpackMacro(
 		// If @transform is present but there is no named transform for ruleName, fail
 		// loudly rather than falling back on the default rule or nothing. A macro's
 		// rule transforms should be as well-specified as the grammar.
-		if transformValue, ok := transforms.(rel.Tuple).Get(ruleName); ok {
-			transform = transformValue.(rel.Set)
+		transformTuple, is := transforms.(rel.Tuple)
+		if !is {
+			return Macro{ruleName: ruleName}, fmt.Errorf("@transform of a macro must be a tuple")
+		}
+		if transformValue, ok := transformTuple.Get(ruleName); ok {
+			if transform, is = transformValue.(rel.Set); !is {
+				return Macro{ruleName: ruleName}, fmt.Errorf("transform for rule %q must be a function", ruleName)
+			}
 		} else {
 			return Macro{ruleName: ruleName}, fmt.Errorf("transform for rule %q not found", ruleName)
 		}
